@@ -511,9 +511,15 @@ def check_counts(G_: G, col: common.Collector, wit: dict[str, Any], dup: bool) -
         namespaces.append(ns)
     namespaces.append(list(G_.all_functions))
     objs = [n for ns in namespaces for n in ns]
-    # "distinct" is decided per namespace (equal nodes of two bodies are two nodes)
+    # "distinct" is decided per namespace (equal nodes of two bodies are two nodes); two
+    # EQUAL function definitions are one definition, hence one namespace
     distinct_ns: list[Any] = []
-    for ns in namespaces:
+    rep: dict[Any, int] = {}
+    for j, f in enumerate(G_.all_functions):
+        rep.setdefault(f, j)
+    for j, ns in enumerate(namespaces):
+        if 1 <= j <= len(G_.all_functions) and rep[G_.all_functions[j - 1]] != j - 1:
+            continue
         distinct_ns.extend({n: 1 for n in ns})
     distinct: dict[Any, int] = {}
     for n in objs:
@@ -710,6 +716,16 @@ def with_twin(G_: G, seed: int) -> Any:
     rng = common.rng_for(seed, "dup20")
     victims = [n for n in G_.nodes if isinstance(n, pt.Array)
                and not isinstance(n, pt.NamedArray)]
+    # a function definition called from two sites of the top level can have a twin as well
+    # (what tracing one Python function twice produces)
+    from pytato.function import Call
+    ncalls: dict[int, int] = {}
+    for n in G_.nodes:
+        if isinstance(n, Call):
+            ncalls[id(n.function)] = ncalls.get(id(n.function), 0) + 1
+    fvictims = [f for f in G_.functions if ncalls.get(id(f), 0) >= 2]
+    if fvictims and rng.random() < 0.5:
+        victims = fvictims
     if not victims:
         return None
     v = rng.choice(victims)
@@ -737,6 +753,10 @@ def with_twin(G_: G, seed: int) -> Any:
         gd = reflect.rebuild(G_.g, fn2)
     except Exception:  # noqa: BLE001
         return None
+    if not isinstance(v, pt.Array):
+        fs = {id(n.function) for n in reflect.walk(gd, skip_kinds=reflect.MAPPER_INVISIBLE)
+              if isinstance(n, Call)}
+        return gd if used[0] and id(v) in fs and id(twin) in fs else None
     if not used[0] or not any(
             n is v for n in reflect.walk(gd, skip_kinds=reflect.MAPPER_INVISIBLE)):
         try:
